@@ -291,7 +291,15 @@ pub fn gen_cfg(rng: &mut Rng, idx: u64, scenario: &str, opts: &CfgOpts) -> RunCf
     if let Some(n) = &opts.force_name {
         name = n.clone();
         let parts: Vec<&str> = n.split('_').collect();
-        stratum = format!("{}/forced/{}/{}/{}", parts[1], parts[2], parts[3], parts[4]);
+        // the same stratum labels as gen_name uses
+        let (base, class) = match Proto::parse(n) {
+            Ok(p) => {
+                let nm = p.psk_mods.len();
+                (p.base.clone(), if nm == 0 { "none" } else if nm == 1 { "single" } else if nm == p.msgs.len() + 1 { "all" } else { "multi" })
+            },
+            Err(_) => (parts[1].to_string(), "unparsed"),
+        };
+        stratum = format!("{base}/{class}/{}/{}/{}", parts[2], parts[3], parts[4]);
     }
     let (mut a, mut b) = gen_session(rng, &name, opts, 1);
     if let Some(bk) = opts.force_backend {
